@@ -31,22 +31,22 @@ type vfPipe struct {
 	termErr  error // sticky: what the reader now gets
 	raborted bool  // reader side closed locally (Close of the owning end)
 
-	writes    int   // Write calls so far
-	wrFaultAt int   // ordinal (0-based) of the Write that fails; -1 none
-	wrShort   int   // bytes accepted by the failing write
-	wrDead    error // sticky write error afterwards
-	wrFaultSeq int  // scheduler seq at which the write fault fired (0: not yet)
-	termSeq    int  // scheduler seq at which the reader got its terminal error
-	closes    int   // Close calls on the writer end
+	writes     int   // Write calls so far
+	wrFaultAt  int   // ordinal (0-based) of the Write that fails; -1 none
+	wrShort    int   // bytes accepted by the failing write
+	wrDead     error // sticky write error afterwards
+	wrFaultSeq int   // scheduler seq at which the write fault fired (0: not yet)
+	termSeq    int   // scheduler seq at which the reader got its terminal error
+	closes     int   // Close calls on the writer end
 
-	tap       func(p []byte) // sees every accepted byte, synchronously
-	onDeliver func(n int)    // after n bytes were granted
-	maxChunk  int            // 0: any; else cap of one delivery
-	noFrag    bool           // deliver everything the reader asks for
-	parkWrites bool          // every Write parks first (only where no other goroutine can want the writer's lock)
-	errWithData bool         // the Read that hands out the last bytes before the end also returns the error (io.Reader allows it)
-	stallAt    int           // ordinal of the Write that stalls (back-pressure) until the scheduler releases it; -1 none
-	stallLen   int           // how many consecutive writes stall
+	tap         func(p []byte) // sees every accepted byte, synchronously
+	onDeliver   func(n int)    // after n bytes were granted
+	maxChunk    int            // 0: any; else cap of one delivery
+	noFrag      bool           // deliver everything the reader asks for
+	parkWrites  bool           // every Write parks first (only where no other goroutine can want the writer's lock)
+	errWithData bool           // the Read that hands out the last bytes before the end also returns the error (io.Reader allows it)
+	stallAt     int            // ordinal of the Write that stalls (back-pressure) until the scheduler releases it; -1 none
+	stallLen    int            // how many consecutive writes stall
 }
 
 func (s *vfSim) newPipe(name string) *vfPipe {
